@@ -3,6 +3,7 @@ package mon
 import (
 	"fmt"
 	"sort"
+	"strings"
 
 	"github.com/antchfx/xpath"
 
@@ -381,6 +382,19 @@ func c14Funcs(c *Case) {
 	g := c.G()
 	hasNS := c.Index%3 != 0
 	d := c.GShared(fmt.Sprint("fdoc", hasNS), int64(c.Index/9)).NSTree(hasNS)
+	if (c.Index/9)%4 == 1 {
+		// namespace declarations exposed as attributes whose LocalName() is "xmlns:p" and whose Prefix() is empty (the
+		// package's own test navigator does that): name() reports "xmlns:p", and that is what a literal must equal
+		dg := c.GShared(fmt.Sprint("fdocx", hasNS), int64(c.Index/9))
+		d = dg.NSTree(hasNS)
+		for _, n := range append([]*xdoc.Node(nil), d.Nodes...) {
+			if n.Kind == xdoc.Element && dg.Chance(0.4) {
+				n.AddAttr("", "xmlns:"+dg.Pick("p", "q", "b"), "", "urn:x")
+			}
+		}
+		d.Finish()
+		c.Count("navigator:colon-in-localname")
+	}
 	ctx := d.Nodes[g.Intn(len(d.Nodes))]
 	fns := []string{"name", "local-name"}
 	if hasNS {
@@ -421,7 +435,21 @@ func c14Funcs(c *Case) {
 		target := d.Nodes[g.Intn(len(d.Nodes))]
 		v, _ := xref.SafeEval(xref.Call{Name: fn}, xref.NewCtx(target))
 		lit, _ := v.(string)
-		st := &xref.Step{Axis: "child", Abbrev: "child", Test: xref.Test{Kind: g.Pick("*", "node")}, Preds: []xref.Expr{xref.Bin{Op: g.Pick("=", "!="), L: xref.Call{Name: fn}, R: xref.Str{V: lit}}}}
+		switch g.Intn(8) {
+		case 0: // near misses of a qualified name
+			lit = ":" + lit
+		case 1:
+			lit = lit + ":"
+		case 2:
+			if k := strings.Index(lit, ":"); k >= 0 {
+				lit = lit[k+1:] // the local part alone
+			}
+		}
+		var cmp xref.Expr = xref.Bin{Op: g.Pick("=", "!="), L: xref.Call{Name: fn}, R: xref.Str{V: lit}}
+		if g.Chance(0.4) {
+			cmp = xref.Bin{Op: g.Pick("=", "!="), L: xref.Str{V: lit}, R: xref.Call{Name: fn}} // the literal on the left
+		}
+		st := &xref.Step{Axis: "child", Abbrev: "child", Test: xref.Test{Kind: g.Pick("*", "node")}, Preds: []xref.Expr{cmp}}
 		if target.Kind == xdoc.Attr || g.Chance(0.2) {
 			st = &xref.Step{Axis: "attribute", Abbrev: "@", Test: xref.Test{Kind: "*"}, Preds: st.Preds}
 		}
